@@ -385,6 +385,13 @@ def main():
         if spec.nontrivial(r):
             distinct.add(r["case"].split("\t", 2)[2])
 
+    # cross-case conditions (determinism across repetitions / fresh processes, history independence)
+    for r, why in spec.post_check(results):
+        r["oracle"] = "FAIL:" + why
+        stats["FAIL"] = stats.get("FAIL", 0) + 1
+        if not spec.classify(r, known):
+            fails.append(r)
+
     # ---- search for a failing input when a proof or the correspondence broke
     searched = 0
     if (broken or diffs) and not fails and build["model_ok"]:
